@@ -493,6 +493,15 @@ def run(chk):
                 failures.append({"case": cinfo, "what": bad, "tags": btags, "impl": [tree[:300], im], "model": mv[1][:300]})
             elif not ctags:
                 chk.stat("cases inside the theorem's class agreeing with the reference")
+            # per-case counts per exclusion reason (evidence: coverage.distribution)
+            if ctags:
+                chk.stat("cases outside the proved classes")
+                for t in ctags:
+                    chk.stat("cases excluded by: " + t)
+                if len(ctags) == 1:
+                    chk.stat("cases excluded ONLY by: " + ctags[0])
+            else:
+                chk.stat("cases inside the proved classes")
             if chk.cov["evaluations"] % 80 == 7:
                 chk.sample({"grammar": case["grammar"], "input": text, "impl": tree[:120], "spec": mv[1][:120]})
     chk.cov["rule"] = ("generated textX grammars (2-6 rules; common, abstract and match rules; = ?= *= += ; string/regex matches incl. "
